@@ -391,6 +391,57 @@ func c09ExitConditions(c *Ctx, r *Result) {
 		call, ok := unspill(v).(*ssa.Call)
 		return ok && call.Call.IsInvoke() && call.Call.Method.Name() == "Size" && types.Identical(call.Call.Value.Type().Underlying(), queueIface)
 	}
+	// quantity: which of the three polled quantities a value is ("workers", "idle", "tasks"), also
+	// when it is the result of a same-package helper that reads it (tp.WorkerCount(), a counts()
+	// helper with several results); helperOf is that helper call.
+	var quantity func(v ssa.Value, depth int) (string, *ssa.Call)
+	quantity = func(v ssa.Value, depth int) (string, *ssa.Call) {
+		v = unspill(stripNumConv(v))
+		switch {
+		case isLenOf(v, fWorkers):
+			return "workers", nil
+		case isLenOf(v, fIdle):
+			return "idle", nil
+		case isQueueSize(v):
+			return "tasks", nil
+		}
+		if depth > 2 {
+			return "", nil
+		}
+		idx := 0
+		var call *ssa.Call
+		switch x := v.(type) {
+		case *ssa.Extract:
+			call, _ = x.Tuple.(*ssa.Call)
+			idx = x.Index
+		case *ssa.Call:
+			call = x
+		}
+		if call == nil {
+			return "", nil
+		}
+		cal := call.Call.StaticCallee()
+		if cal == nil || !c.inModule(cal) || c.PkgOf(cal) != "engine/pool" {
+			return "", nil
+		}
+		q := ""
+		for _, rv := range returnedValues(cal, idx) {
+			rq, _ := quantity(rv, depth+1)
+			if rq == "" || (q != "" && rq != q) {
+				return "", nil
+			}
+			q = rq
+		}
+		return q, call
+	}
+	isQ := func(v ssa.Value, want string) bool {
+		q, _ := quantity(v, 0)
+		return q == want
+	}
+	type polCond struct {
+		v   ssa.Value
+		neg bool // the condition holds when v is false (a != comparison)
+	}
 	type spec struct {
 		name string
 		want string
@@ -423,24 +474,25 @@ func c09ExitConditions(c *Ctx, r *Result) {
 			continue
 		}
 		// conditions
-		var noWorkers, allIdle, noTasks, countReached []ssa.Value
+		var noWorkers, allIdle, noTasks, countReached []polCond
 		allInstrs(fn, func(in ssa.Instruction) {
 			bo, ok := in.(*ssa.BinOp)
-			if !ok || bo.Op != token.EQL || !loop[bo.Block()] {
+			if !ok || (bo.Op != token.EQL && bo.Op != token.NEQ) || !loop[bo.Block()] {
 				return
 			}
+			pc := polCond{v: bo, neg: bo.Op == token.NEQ}
 			k, isC := constInt(bo.Y)
 			switch {
-			case isLenOf(bo.X, fWorkers) && isC && k == 0:
-				noWorkers = append(noWorkers, bo)
-			case (isLenOf(bo.X, fWorkers) && isLenOf(bo.Y, fIdle)) || (isLenOf(bo.Y, fWorkers) && isLenOf(bo.X, fIdle)):
-				allIdle = append(allIdle, bo)
-			case isQueueSize(bo.X) && isC && k == 0:
-				noTasks = append(noTasks, bo)
-			case isLenOf(bo.X, fWorkers) && len(fn.Params) > 1 && stripNumConv(bo.Y) != nil && isCountParam(bo.Y, fn):
-				countReached = append(countReached, bo)
-			case isLenOf(bo.Y, fWorkers) && isCountParam(bo.X, fn):
-				countReached = append(countReached, bo)
+			case isQ(bo.X, "workers") && isC && k == 0:
+				noWorkers = append(noWorkers, pc)
+			case (isQ(bo.X, "workers") && isQ(bo.Y, "idle")) || (isQ(bo.Y, "workers") && isQ(bo.X, "idle")):
+				allIdle = append(allIdle, pc)
+			case isQ(bo.X, "tasks") && isC && k == 0:
+				noTasks = append(noTasks, pc)
+			case isQ(bo.X, "workers") && len(fn.Params) > 1 && stripNumConv(bo.Y) != nil && isCountParam(bo.Y, fn):
+				countReached = append(countReached, pc)
+			case isQ(bo.Y, "workers") && isCountParam(bo.X, fn):
+				countReached = append(countReached, pc)
 			}
 		})
 		// R09d-snapshot: the quantities the exit decision combines are read in one critical
@@ -448,81 +500,129 @@ func c09ExitConditions(c *Ctx, r *Result) {
 		// under separate locks, "all workers idle" and "queue empty" can each be true at its
 		// own moment while a task is being taken in between
 		if sp.name != "SetWorkerCount" {
+			// the reads in the loop: direct reads and calls of helpers that return a quantity
 			var reads []ssa.Instruction
+			quantities := map[string]bool{}
 			allInstrs(fn, func(in ssa.Instruction) {
 				call, ok := in.(*ssa.Call)
 				if !ok || !loop[in.Block()] {
 					return
 				}
-				if isLenOf(call, fWorkers) || isLenOf(call, fIdle) || isQueueSize(call) {
-					reads = append(reads, in)
+				if _, isTup := call.Type().(*types.Tuple); !isTup {
+					if q, _ := quantity(call, 0); q != "" {
+						reads = append(reads, in)
+						quantities[q] = true
+					}
+					return
+				}
+				// a helper with several results, each a quantity
+				if tup, isTup := call.Type().(*types.Tuple); isTup {
+					any := false
+					for k := 0; k < tup.Len(); k++ {
+						if cal := call.Call.StaticCallee(); cal != nil && c.inModule(cal) && c.PkgOf(cal) == "engine/pool" {
+							q := ""
+							okAll := true
+							for _, rv := range returnedValues(cal, k) {
+								rq, _ := quantity(rv, 1)
+								if rq == "" || (q != "" && q != rq) {
+									okAll = false
+								}
+								q = rq
+							}
+							if okAll && q != "" {
+								quantities[q] = true
+								any = true
+							}
+						}
+					}
+					if any {
+						reads = append(reads, in)
+					}
 				}
 			})
 			site := key + "#poll-snapshot"
 			pos := c.Pos(fn.Pos())
+			// oneSection: all reads (instructions of f) sit in one block under one lock that is held
+			// from the first to the last of them
+			oneSection := func(f *ssa.Function, rds []ssa.Instruction) bool {
+				lf := lfsExit.Of(f)
+				if lf == nil || len(rds) == 0 {
+					return false
+				}
+				for _, rd := range rds {
+					if rd.Block() != rds[0].Block() {
+						return false
+					}
+				}
+				lo, hi := instrIndex(rds[0]), instrIndex(rds[0])
+				for _, rd := range rds {
+					if i := instrIndex(rd); i < lo {
+						lo = i
+					} else if i > hi {
+						hi = i
+					}
+				}
+				for p := range lf.ClassOf {
+					all := true
+					for _, rd := range rds {
+						if !lf.MustHoldPath(rd, p, false) {
+							all = false
+						}
+					}
+					if !all {
+						continue
+					}
+					released := false
+					for i := lo; i <= hi; i++ {
+						if op, ok := lockOpOf(rds[0].Block().Instrs[i]); ok && !op.acquire() && op.Path == p {
+							released = true
+						}
+					}
+					if !released {
+						return true
+					}
+				}
+				return false
+			}
 			whyBad := ""
-			lf := lfsExit.Of(fn)
-			if len(reads) < 2 || lf == nil {
-				whyBad = ""
-			} else {
-				sameBlock := true
-				for _, rd := range reads {
-					if rd.Block() != reads[0].Block() {
-						sameBlock = false
-					}
-				}
-				common := ""
-				if sameBlock {
-					lo, hi := instrIndex(reads[0]), instrIndex(reads[0])
-					for _, rd := range reads {
-						if i := instrIndex(rd); i < lo {
-							lo = i
-						} else if i > hi {
-							hi = i
-						}
-					}
-					for p := range lf.ClassOf {
-						all := true
-						for _, rd := range reads {
-							if !lf.MustHoldPath(rd, p, false) {
-								all = false
-							}
-						}
-						if !all {
-							continue
-						}
-						released := false
-						for i := lo; i <= hi; i++ {
-							if op, ok := lockOpOf(reads[0].Block().Instrs[i]); ok && !op.acquire() && op.Path == p {
-								released = true
-							}
-						}
-						if !released {
-							common = p
+			if len(quantities) >= 2 {
+				good := oneSection(fn, reads)
+				if !good && len(reads) == 1 {
+					// one helper call delivers all quantities: the section is inside the helper
+					if call, ok := reads[0].(*ssa.Call); ok {
+						if cal := call.Call.StaticCallee(); cal != nil {
+							var inner []ssa.Instruction
+							allInstrs(cal, func(in ssa.Instruction) {
+								if ic, ok := in.(*ssa.Call); ok {
+									if q, _ := quantity(ic, 1); q != "" {
+										inner = append(inner, in)
+									}
+								}
+							})
+							good = len(inner) >= 2 && oneSection(cal, inner)
 						}
 					}
 				}
-				if common == "" {
+				if !good {
 					whyBad = "the worker tables and the queue size that decide the exit are not read within one critical section (no lock is held from the first of these reads to the last)"
 				}
-			}
-			if len(reads) >= 2 {
 				nSnap++
 				if whyBad != "" {
 					r.Instance("R09d-snapshot", site, pos, "finding", whyBad, true)
 					r.Report(Finding{Rule: "R09d-snapshot", Site: site, Pos: pos,
 						Msg: key + ": " + whyBad + " — each can hold at its own moment while a worker leaves the idle table and takes a task in between: the call returns while a task accepted before it is still running"})
 				} else {
-					r.Instance("R09d-snapshot", site, pos, "ok", fmt.Sprintf("%d reads under one continuously held lock", len(reads)), true)
+					r.Instance("R09d-snapshot", site, pos, "ok", fmt.Sprintf("%d quantities read under one continuously held lock", len(quantities)), true)
 				}
 			}
 		}
 		bad := ""
 		exits := 0
 		o := &PathOracle{}
-		anyTrue := func(st *PState, vs []ssa.Value) bool {
-			for _, v := range vs {
-				if st.Get(v, o) == AvNonNil {
+		anyTrue := func(st *PState, vs []polCond) bool {
+			for _, pc := range vs {
+				got := st.Get(pc.v, o)
+				if (!pc.neg && got == AvNonNil) || (pc.neg && got == AvNil) {
 					return true
 				}
 			}
